@@ -164,8 +164,21 @@ def run(c):
         else:
             t = t + [r.choice(a)]
         pol(a, t, r.choice([1, 3, 4]), "malformed")
-    obs = c.run_harness(exe, [{k: v for k, v in x.items() if not k.startswith("_")} for x in cases] + [{"id": len(cases), "kind": "recheck"}], timeout=900)
+    # name lookups (what the tracer does for every trapped syscall) happen between the builds: native numbers, numbers carrying the x32 bit,
+    # numbers that are no syscall; the builds after them must be what they would have been
+    look = sorted(set(nums))[:60] + [0x40000000 + n for n in (0, 1, 2, 59, 257, 322, 512, 520, 545)] + [9999, 0x3fffffff, 0xffffffff, 1 << 31]
+    third = len(cases) // 3
+    seq = [{k: v for k, v in x.items() if not k.startswith("_")} for x in cases]
+    seq = seq[:third] + [{"id": -1, "kind": "names", "nums": look}] + seq[third:]
+    obs = c.run_harness(exe, seq + [{"id": len(cases), "kind": "recheck"}], timeout=900)
     recheck = obs.pop()
+    looked = obs.pop(third)
+    name_of = {v: n for n, v in zip(names, nums)}
+    for v, got in zip(look, looked["names"]):
+        want = name_of.get(v, "!")
+        if got != want and not (want != "!" and got in names and num_of[got] == v):
+            c.finding_or_violation({"kind": "syscall-name", "what": "a number is given a name the table does not have for it", "number": v, "name": got, "table": want}, {"number": v})
+            break
     c.cov["filters_held_and_read_again_after_all_builds"] = recheck["held"]
     for ch in recheck["changed"]:
         x = cases[ch["id"]]
